@@ -147,7 +147,9 @@ impl vstd::std_specs::convert::FromSpecImpl<Tup> for Variable {
 impl From<Tup> for Variable { fn from(v: Tup) -> (r: Variable) { Variable::Array(Arr { elems: v.elems }) } }
 
 // `Array` associated functions used by operator bodies (src/variable/array.rs) — not verified here
+//@BEGIN opaque_array_value
 pub struct Array {}
+//@END opaque_array_value
 pub struct ArrayOwned { pub elems: Ghost<Seq<Variable>> }   // an `Array` value before it is put in an Arc
 impl vstd::std_specs::convert::FromSpecImpl<ArrayOwned> for Arr {
     open spec fn obeys_from_spec() -> bool { true }
@@ -258,7 +260,9 @@ pub struct FunctionDeclaration { pub id: Ghost<int> }
 pub struct Reduce { pub id: Ghost<int> }
 //@END opaque_reduce
 pub struct StructIns { pub id: Ghost<int> }            // instruction::struct::Struct
+//@BEGIN opaque_typefilter
 pub struct TypeFilter { pub id: Ghost<int> }
+//@END opaque_typefilter
 pub struct NativeFn { pub id: Ghost<int> }              // fn(&mut Interpreter) -> Result<Variable, ExecError> (fn pointers: outside Verus)
 pub struct Name { pub id: Ghost<int> }                 // Arc<str> used as an identifier
 
